@@ -67,9 +67,22 @@ def changed_files(d):
     return re.findall(r"^\+\+\+ b/(\S+)", open(os.path.join(d, "patch.diff")).read(), re.M)
 
 
+def untracked(wt):
+    return set(sh(["git", "ls-files", "--others", "--exclude-standard"], cwd=wt)[1].split("\n")) - {""}
+
+
 def run_demo(d, wt):
+    """Run the demonstration and remove whatever files it copied into the tree (some run.sh do not clean up)."""
     rs = os.path.join(d, "demo", "run.sh")
-    return sh(["sh", rs, wt], timeout=1800)
+    before = untracked(wt)
+    first = open(rs).readline()
+    res = sh(["bash" if "bash" in first else "sh", rs, wt], timeout=1800)
+    for f in untracked(wt) - before:
+        try:
+            os.remove(os.path.join(wt, f))
+        except OSError:
+            pass
+    return res
 
 
 def cmd_import(prop, k, src=None):
